@@ -52,7 +52,6 @@ pub assume_specification[<IdentiCall as Clone>::clone](t: &IdentiCall) -> (r: Id
 // ---- further /repo functions with ASSUMED contracts in this unit (bodies pinned) ------------------------------------------------
 //@@ ASSUME src/check/context/function/mod.rs | impl LookupFunction<&StringName, Function> for Context | function
 //@@ ASSUME src/check/context/clss/mod.rs | impl LookupClass<&Name, HashSet<Class>> for Context | class
-//@@ ASSUME src/check/constrain/generate/operation.rs | free | gen_magic
 //@@ ASSUME src/check/ident.rs | impl Identifier | fields
 //@@ ASSUME src/check/ident.rs | impl Identifier | all_calls
 //@@ ASSUME src/check/ident.rs | impl IdentiCall | without_obj
@@ -346,6 +345,8 @@ pub fn gen_vec(asts: &[AST], env: &Environment, carry_env: bool, ctx: &Context, 
         (r is Ok && !carry_env) ==> r == Ok::<Environment, Vec<TypeErr>>(*env) && forall|i: int| 0 <= i < asts@.len() ==> seen(*final(constr), #[trigger] asts@[i], *env),
         r is Err ==> r->Err_0@.len() >= 1,
 { unimplemented!() }
+/// unit GENOP verifies this contract (and more) on the real body of gen_magic; here it is assumed (assume-guarantee; GENOP
+/// is a unit of every property that uses GENCALL)
 #[verifier::external_body]
 pub fn gen_magic(name: &str, ast: &AST, left: &AST, right: &AST, env: &Environment, ctx: &Context, constr: &mut ConstrBuilder) -> (r: Constrained)
     ensures mono(*old(constr), *final(constr)), grows(*old(constr), *final(constr)), r is Err ==> r->Err_0@.len() >= 1,
